@@ -177,7 +177,7 @@ def register(M):
       "                    if key not in state:\n                        # An inline directive starts from a copy of the\n                        # persistent set so it only impacts this part.\n                        state[key] = set(self._global_state[key])\n",
       "                    if key not in state:\n                        state[key] = set()\n",
       'inline REQUIRES overlay starts from an empty set (persistent requirements forgotten for that statement)')
-    M('C04_req_shared', ['C04', 'C11'], 'directive.py',
+    M('C04_req_shared', ['C04'], 'directive.py',
       "                        state[key] = set(self._global_state[key])\n", "                        state[key] = self._global_state[key]\n",
       'inline REQUIRES overlay shares the persistent set (inline effect leaks)')
 
@@ -503,3 +503,31 @@ def register(M):
     M('C09_reraise', ['C09'], 'runner.py',
       "    on_error = 'return' if n_total > 1 else 'raise'\n    on_error = 'return'\n", "    on_error = 'return' if n_total > 1 else 'raise'\n",
       'a single selected doctest is run with on_error=raise (the native run dies on its failure)')
+
+    # ---- C11 ---------------------------------------------------------------
+    M('E7', ['C11'], 'doctest_example.py',
+      "        # Clear the global namespace so doctests don't leak memory\n        self.global_namespace.clear()\n", "",
+      'the per-doctest namespace is not cleared after a run')
+    M('E14', ['C11'], 'doctest_example.py',
+      "        self.logged_stdout.clear()\n        self._unmatched_stdout = []\n", "        self.logged_stdout.clear()\n",
+      'carried-over unmatched output is not reset at the start of a run')
+    M('C11_nodeepcopy', ['C11'], 'directive.py',
+      "        self._global_state = copy.deepcopy(DEFAULT_RUNTIME_STATE)", "        self._global_state = dict(DEFAULT_RUNTIME_STATE)",
+      'run state is a shallow copy of the defaults (the REQUIRES set is shared)')
+    M('C11_global_itself', ['C11'], 'directive.py',
+      "        self._global_state = copy.deepcopy(DEFAULT_RUNTIME_STATE)\n        if default_state:", "        self._global_state = DEFAULT_RUNTIME_STATE if not default_state else copy.deepcopy(DEFAULT_RUNTIME_STATE)\n        if default_state:",
+      'without default options the run state is the module-level default dict itself')
+    M('C11_moddict', ['C11'], 'doctest_example.py',
+      "            test_globals.update(self.module.__dict__)\n", "            test_globals = self.global_namespace = self.module.__dict__\n",
+      'doctests run directly in the module dictionary')
+    M('C11_logged', ['C11'], 'doctest_example.py',
+      "        self.logged_evals.clear()\n        self.logged_stdout.clear()\n", "        self.logged_evals.clear()\n",
+      'recorded stdout of an earlier run is kept')
+    M('C11_runstate_reuse', ['C11'], 'doctest_example.py',
+      "        runstate = self._runstate = directive.RuntimeState(default_state)\n",
+      "        runstate = self._runstate = (getattr(self, '_runstate', None) or directive.RuntimeState(default_state))\n",
+      'the run state of the previous run of the same object is reused')
+    M('C11_alias_default', ['C11', 'C15'], 'directive.py',
+      "        if default_state:\n            self._global_state.update(default_state)\n        self._inline_state = {}",
+      "        if default_state:\n            for k, v in self._global_state.items():\n                default_state.setdefault(k, v)\n            self._global_state = default_state\n        self._inline_state = {}",
+      'a non-empty default option dict is adopted as the run state (directives leak to every doctest sharing it)')
